@@ -348,7 +348,7 @@ template< typename T, typename F>
 template< typename T, typename F>
    FixedStringReverseIterator< T, F>& FixedStringReverseIterator< T, F>::operator ++()
 {
-   if (mpObject != nullptr)
+   if ((mpObject != nullptr) && (mIndex != EndValue))
    {
       if (mIndex > 0)
          --mIndex;
